@@ -29,7 +29,7 @@ func TestC08Shapes(t *testing.T) {
 	if os.Getenv("VERIF_SHARD") != "" && os.Getenv("VERIF_SHARD") != "0" {
 		t.Skip("enumerations run in shard 0")
 	}
-		n, msg := Shapes08()
+	n, msg := Shapes08()
 	if msg != "" {
 		core.ReportViolation("C08.shapes", msg, Enum{Note: "enumeration"})
 		t.Fatal(msg)
